@@ -69,6 +69,8 @@ func readerZoo(r *rand.Rand, x []byte, dir string) []zooReader {
 			b.Discard(len(pre))
 			return b
 		}},
+		{"*bufio.Reader of 128 KiB", func() io.Reader { return bufio.NewReaderSize(bytes.NewReader(x), 1<<17) }},
+		{"*bufio.Reader of 1 MiB", func() io.Reader { return bufio.NewReaderSize(bytes.NewReader(x), 1<<20) }},
 		{"io.MultiReader of three parts", func() io.Reader {
 			a, b := len(x)/3, 2*len(x)/3
 			return io.MultiReader(bytes.NewReader(x[:a]), strings.NewReader(string(x[a:b])), bytes.NewBuffer(append([]byte{}, x[b:]...)))
@@ -128,8 +130,15 @@ func c06ReaderZoo(c *Ctx) {
 			c.Case(idx, func(k *K) {
 				r := k.Rand()
 				x := c06Input(r, f)
+				gen := f
+				if gen == "samh" {
+					gen = "sam"
+				}
 				if i%10 == 9 {
-					x = wellFormedLong(r, map[string]string{"samh": "sam"}[f]+strings.TrimPrefix(f, "samh"))
+					x = wellFormedLong(r, gen)
+				}
+				if i%30 == 14 { // a line several times longer than the largest buffer in the zoo
+					x = giantText(r, f, 300000)
 				}
 				k.Input("format", f)
 				k.Input("input", func() string { return describeText(x) })
